@@ -237,6 +237,55 @@ pub fn check_mutant(c: &mutate::MutCase, st: &mut Stats) -> Check {
     pipeline(&b, c.key, st).map_err(|f| f.with(json!({"mapping": show_bytes(&b), "hex": hex(&b)})))
 }
 
+#[derive(Clone, Debug, Serialize, Deserialize)]
+pub struct StringsCase {
+    pub texts: Vec<String>,
+    pub sigs: Vec<String>,
+}
+
+pub const STRINGS_MAPPING: &str = "com.example.Foo -> a:\n# {\"id\":\"sourceFile\",\"fileName\":\"R8$$SyntheticClass\"}\n    1:5:void é.Ü.m(int):10:14 -> b\n    1:5:void n():3 -> b\nü.X -> é:\n    void 漢() -> 字\n";
+
+pub fn strings_case() -> BoxedStrategy<StringsCase> {
+    let text = prop_oneof![
+        3 => "(    |\\t|)at \\PC{0,5}[.(:)é漢]{0,3}\\PC{0,5}[)(:]{0,2}",
+        2 => "\\PC{0,10}(: )?\\PC{0,6}",
+        2 => "(Caused by: )?[a.éb: ]{0,8}",
+        2 => "    at (a|é|com.x)[.]{0,2}(b|字)?[(]{0,2}(F|é)?[:]{0,2}[0-9]{0,22}[)]{0,2}",
+        1 => "\\PC{0,30}",
+    ];
+    let sig = prop_oneof![
+        3 => "[(]{0,2}[\\[LIVJZé漢;/a]{0,10}[)]{0,2}[\\[LIVé漢;a]{0,5}",
+        1 => "\\PC{0,12}",
+    ];
+    (vec(text, 1..6), vec(sig, 1..6)).prop_map(|(texts, sigs)| StringsCase { texts, sigs }).boxed()
+}
+
+pub fn check_strings(c: &StringsCase, st: &mut Stats) -> Check {
+    st.evaluations += 1;
+    let joined = c.texts.join("\n");
+    extra_queries(STRINGS_MAPPING.as_bytes(), &joined)?;
+    let m = mapper(STRINGS_MAPPING.as_bytes(), false).map_err(|f| Fail::new("pipeline-panic", f.msg))?;
+    let buf = write_cache(STRINGS_MAPPING.as_bytes())?;
+    let cache = parse_cache(&buf)?;
+    guarded(|| {
+        for s in &c.sigs {
+            let _ = m.sig(s);
+            let _ = cache.sig(s);
+        }
+        for t in &c.texts {
+            let _ = proguard::StackFrame::try_parse(t.as_bytes());
+            let _ = proguard::Throwable::try_parse(t.as_bytes());
+            let _ = proguard::ProguardRecord::try_parse(t.as_bytes());
+        }
+    })
+    .map_err(|p| Fail::new("pipeline-panic", format!("string query: {p}")))?;
+    if c.texts.iter().any(|t| !t.is_ascii()) {
+        st.class("multi-byte characters in trace text / signature");
+        st.nontrivial(fnv64(joined.as_bytes()));
+    }
+    Ok(())
+}
+
 pub fn run(ctx: &Ctx) -> Report {
     let mut rep = Report::new(ID, "exploration", ctx);
     rep.rule = "Cases: generated mappings with injected hostile lines (every numeric slot drawn from {0,1,2,5,9,2^32-2..2^32+1,2^33,2^63-1,2^63,2^64-2,2^64-1,2^64,41 digits, leading zeros, Latin-1 'numeric' bytes}; empty / dotted / non-ASCII names; empty sourceFile names), hostile token mutants (incl. invalid UTF-8), raw bytes. Pipeline per case: iter, is_valid, has_line_info, summary, uuid, ProguardMapper::new and new_with_param_mapping, ProguardCache::write into a Vec, parse, then on mapper, mapper-with-params and cache: class / throwable / method / frame by line (0,1,2,2^32-1..2^32+1,2^63,2^64-2,2^64-1 and every range boundary of the file) / frame by params / text traces (generated, hand-picked edge cases, arbitrary Unicode) / StackTrace::try_parse + typed remap + Display / deobfuscate_signature + format_signature on strings with multi-byte characters at every slice boundary. Oracle: no panic (overflow checks on), and write, parse, remap_stacktrace return Ok. evaluations = pipelines run. Non-trivial = distinct cases with >=1 method record and a query that reaches it.".into();
@@ -244,6 +293,7 @@ pub fn run(ctx: &Ctx) -> Report {
     rep.run_stage("hostile", hostile_case, ctx.cases(40_000, 600_000), check_hostile);
     let cfg = GenCfg { plain_sourcefile_headers: true, ..GenCfg::default() };
     rep.run_stage("mutants", move || mutate::hostile_case(&cfg), ctx.cases(20_000, 300_000), check_mutant);
+    rep.run_stage("strings", strings_case, ctx.cases(40_000, 600_000), check_strings);
     rep.run_stage(
         "bytes",
         || (vec(any::<u8>(), 0..160), any::<u64>()).prop_map(|(v, key)| RawCase { hex: hex(&v), key }),
@@ -259,6 +309,7 @@ pub fn replay(stage: &str, case: &Value) -> Check {
     match stage {
         "hostile" => check_hostile(&serde_json::from_value(case.clone()).map_err(de)?, &mut st),
         "mutants" => check_mutant(&serde_json::from_value(case.clone()).map_err(de)?, &mut st),
+        "strings" => check_strings(&serde_json::from_value(case.clone()).map_err(de)?, &mut st),
         "bytes" => {
             let c: RawCase = serde_json::from_value(case.clone()).map_err(de)?;
             pipeline(&unhex(&c.hex), c.key, &mut st)
